@@ -5,6 +5,7 @@ import ast
 
 from ..core import AnalysisError, calls_in, call_name, const_str, dotted, unparse, walk_no_nested
 from ..match import const_int, returns_of
+from ..match import canonical_statements
 from ..report import Ctx
 
 LEVEL = "other"
@@ -38,6 +39,11 @@ def _codec(ctx: Ctx, name: str, src_var_kind: str) -> None:
     ctx.check(ok, f"Table.{name}:descending", f"candidate lengths run strictly downwards to 1 (longest match first); iterates `{unparse(it)}`")
     if ok:
         hi = it.args[0]  # type: ignore[union-attr]
+        if isinstance(hi, ast.Name):
+            # a bound hoisted into a local: read through it (bound once, of values the loop does not change)
+            from ..match import inline as _inl18, single_assignments as _sa18
+
+            hi = _inl18(hi, _sa18(fn.node))
         names = {unparse(n) for n in ast.walk(hi) if isinstance(n, ast.Attribute)}
         ctx.check(maxattr in names, f"Table.{name}:starts-at-longest", f"the first candidate is as long as the longest table entry ({maxattr}); bound is `{unparse(hi)}`")
         if isinstance(hi, ast.Call) and call_name(hi) == "min":
@@ -225,9 +231,12 @@ def r3_line_grammar(ctx: Ctx) -> None:
         ctx.check(bool(hc) and all(c_ == full for c_ in hc), f"{nm}:hex-digits", f"hexadecimal digits in both letter cases; classes found {[''.join(sorted(c_)) for c_ in hc]}")
     tb = ctx.repo.func(SCRIPT, "Table.transform_byte_matches_to_int")
     t2 = unparse(tb.node)
-    ctx.check("zip(*[iter(value)] * 2, strict=True)" in t2 and "int(''.join(b), 16)" in t2, "Table.transform_byte_matches_to_int", "hex digits are taken two at a time, each pair one byte in base 16")
+    import re as _re18
+
+    pair_var = _re18.search(r"int\(''\.join\((\w+)\), 16\)", t2)
+    ctx.check("zip(*[iter(value)] * 2, strict=True)" in t2 and pair_var is not None, "Table.transform_byte_matches_to_int", "hex digits are taken two at a time, each pair one byte in base 16")
     al = ctx.repo.func(SCRIPT, "Table.add_lookup")
-    ctx.check([unparse(s) for s in al.node.body] == [f"self.lookup[{al.params()[1]}] = bytes({al.params()[2]})"], "Table.add_lookup", "lookup[text] = code bytes")
+    ctx.check(canonical_statements(al.node) == [f"self.lookup[{al.params()[1]}] = bytes({al.params()[2]})"], "Table.add_lookup", "lookup[text] = code bytes")
     ctx.count("grammar_facts", 6)
 
 
